@@ -101,11 +101,22 @@ func scalar(it *simdjson.Iter, typ simdjson.Type) (abs.Value, error) {
 		if err != nil {
 			return abs.Value{}, err
 		}
+		// an integer read as a float is the nearest float64 of the same value, through both float accessors, and is not flagged
+		f, ferr := it.Float()
+		f2, fl, ferr2 := it.FloatFlags()
+		if ferr != nil || ferr2 != nil || f != float64(v) || f2 != float64(v) || fl != 0 {
+			return abs.Value{}, fmt.Errorf("int64 %d read as float: Float()=%v (%v) FloatFlags()=%v flags %d (%v)", v, f, ferr, f2, fl, ferr2)
+		}
 		return abs.Value{K: '#', NT: 'l', NBits: uint64(v)}, nil
 	case simdjson.TypeUint:
 		v, err := it.Uint()
 		if err != nil {
 			return abs.Value{}, err
+		}
+		f, ferr := it.Float()
+		f2, fl, ferr2 := it.FloatFlags()
+		if ferr != nil || ferr2 != nil || f != float64(v) || f2 != float64(v) || fl != 0 {
+			return abs.Value{}, fmt.Errorf("uint64 %d read as float: Float()=%v (%v) FloatFlags()=%v flags %d (%v)", v, f, ferr, f2, fl, ferr2)
 		}
 		return abs.Value{K: '#', NT: 'u', NBits: v}, nil
 	case simdjson.TypeFloat:
